@@ -73,6 +73,7 @@ class CondensedReactionGraph(MolGraph):
                     stereo=False,
                     stereo_change=False,
                     subgraph=False,
+                    bond_change=True,
                 )
             )
 
